@@ -77,6 +77,11 @@ CLAIMED = {
    "Workspaces of 1..3 files (thorough 4) with every include tree rooted at main.journal (1, 1, 3, 16 trees), symbol kind account / commodity / payee, 0..2 occurrences per file, a declaration directive in one file or none, a distractor symbol sharing a prefix, workspace root present or absent, every file closed, all files open, or one file open with an unsaved edit that adds or removes an occurrence. From every file holding an occurrence, at every character of every occurrence (declarations included), with includeDeclaration on and off: textDocument/references must return exactly the model's occurrences in the requesting file and its include tree (without a workspace) or in all workspace files (with one), editor text for open files, each under the URI of the file that contains it; textDocument/rename must yield, after applying the WorkspaceEdit with the reference edit applier, exactly the texts rendered from the model with the name substituted.",
    "Diamonds and cycles are C10's business. Symbols in files that are neither in the include tree nor in the workspace are not covered.",
    "DESIGN.md §5 C09"),
+ "C16": ("exploration",
+   "bounded-exhaustive enumeration of (symbol table layout, typed line, fragment, cursor, configuration); oracle from the model's symbol table with use counts; paired configurations for the limit law",
+   "A symbol table of 6 accounts (shared prefixes and segments, mixed case, non-ASCII), 4 payees, 3 commodities and 3 tags with 0-2 values, with use counts forming ties and strict orders, in one file, split over root + included file, and the same with a workspace root. Typed lines: ordinary / (virtual) / [balanced] posting, account and commodity directive, header after date, after status, after code, transaction and posting comments (tag name), tag value, commodity after an amount. Fragments: every prefix of every name in original, lower and upper case, every subsequence of length <= 3 of one name per kind, one non-matching fragment, the empty fragment; and every cursor column of two lines per context. Configurations: maxResults {1,2,3,5,50,200} x fuzzy on/off x counts on/off. Every response: size <= maximum; every label is a name of the declared kind in the model (or spelled by the typed line itself); every label matches the replaced text as case-insensitive subsequence (fuzzy) or prefix; edit range on the cursor line, start <= cursor = end; at designed cursors the replaced text is the typed fragment, every name starting with it is present when the maximum allows, and with nothing typed use counts are non-increasing; items(max=a) is the length-a prefix of items(max=b) for consecutive maxima.",
+   "Date completion is clock-dependent and only covered for totality (C06). Names spelled by the line being typed are part of the document and accepted.",
+   "DESIGN.md §5 C16"),
 }
 
 NOT_YET = "check not built yet in this session (work in progress; see DESIGN.md §5 for the plan)"
